@@ -740,6 +740,12 @@ var c18LinModel = porcupine.Model{
 // RunC18 runs one simulated scenario for C18.
 func RunC18(t *kernel.Tape, o Opts) *Result {
 	res := &Result{Prop: "C18", Status: "ok"}
+	serialStalled = false
+	defer func() {
+		if serialStalled {
+			res.Status, res.Violations = "stalled", nil
+		}
+	}()
 	maxp := 5
 	if o.Tier == "thorough" {
 		maxp = 7
@@ -906,7 +912,7 @@ func RunC18(t *kernel.Tape, o Opts) *Result {
 				continue
 			}
 			bc := &boundedClient{inner: model.BuildClient(nil), max: 3000}
-			g, err, pv := resolveOnce(npm.NewResolver(bc), ctx, op.Key)
+			g, err, pv := serialResolve(t, npm.NewResolver(bc), ctx, op.Key)
 			if bc.over {
 				res.Status = "budget"
 				res.Config = "ref-budget"
@@ -1293,60 +1299,74 @@ func RunC18(t *kernel.Tape, o Opts) *Result {
 	// Oracle: four-call consistency at quiescence, for every bundle of every
 	// root whose requirements were requested; not-found for the others.
 	fresh := context.Background()
-	service.s = nil // quiescent: no scheduler
-	for _, bvk := range bundled {
-		root := rootOf[bvk.Name]
-		_, registered := regBy[root]
-		mreq := bvk
-		mreq.VersionType = resolve.Requirement
-		type call struct {
-			kind string
-			key  resolve.VersionKey
-		}
-		for _, c := range []call{{"Versions", resolve.VersionKey{PackageKey: bvk.PackageKey}}, {"Version", bvk}, {"Requirements", bvk}, {"MatchingVersions", mreq}} {
-			var found bool
-			var digest string
-			var err error
-			switch c.kind {
-			case "Versions":
-				var vs []resolve.Version
-				vs, err = api.Versions(fresh, c.key.PackageKey)
-				digest = digestVersions(vs, true)
-			case "Version":
-				var v resolve.Version
-				v, err = api.Version(fresh, c.key)
-				digest = digestVersions([]resolve.Version{v}, false)
-			case "Requirements":
-				var rs []resolve.RequirementVersion
-				rs, err = api.Requirements(fresh, c.key)
-				digest = digestReqs(rs)
-			default:
-				var vs []resolve.Version
-				vs, err = api.MatchingVersions(fresh, c.key)
-				digest = digestVersions(vs, false)
+	// quiescent: one caller, under a serial scheduler of its own (the client
+	// may start goroutines)
+	qs := kernel.NewSched(t, kernel.Config{Mode: kernel.ModeSerial})
+	service.s = qs
+	service.plan(0, faultNone, 0, 0, 1)
+	fourCalls := func(*kernel.Task) {
+		for _, bvk := range bundled {
+			root := rootOf[bvk.Name]
+			_, registered := regBy[root]
+			mreq := bvk
+			mreq.VersionType = resolve.Requirement
+			type call struct {
+				kind string
+				key  resolve.VersionKey
 			}
-			found = err == nil
-			if err != nil && !errors.Is(err, resolve.ErrNotFound) {
-				violate(res, "model-mismatch", "model-mismatch:four-call:error", 0, "%s(%s): %v", c.kind, c.key.Name, err)
-				continue
-			}
-			if !registered {
-				if found && len(failedReg[root]) > 0 {
-					continue // a failed registration may have taken effect
+			for _, c := range []call{{"Versions", resolve.VersionKey{PackageKey: bvk.PackageKey}}, {"Version", bvk}, {"Requirements", bvk}, {"MatchingVersions", mreq}} {
+				var found bool
+				var digest string
+				var err error
+				switch c.kind {
+				case "Versions":
+					var vs []resolve.Version
+					vs, err = api.Versions(fresh, c.key.PackageKey)
+					digest = digestVersions(vs, true)
+				case "Version":
+					var v resolve.Version
+					v, err = api.Version(fresh, c.key)
+					digest = digestVersions([]resolve.Version{v}, false)
+				case "Requirements":
+					var rs []resolve.RequirementVersion
+					rs, err = api.Requirements(fresh, c.key)
+					digest = digestReqs(rs)
+				default:
+					var vs []resolve.Version
+					vs, err = api.MatchingVersions(fresh, c.key)
+					digest = digestVersions(vs, false)
 				}
-				if found {
-					violate(res, "model-mismatch", "model-mismatch:four-call:found-unregistered", 0, "%s(%s) succeeds although the requirements of %s were never requested", c.kind, c.key.Name, root)
+				found = err == nil
+				if err != nil && !errors.Is(err, resolve.ErrNotFound) {
+					violate(res, "model-mismatch", "model-mismatch:four-call:error", 0, "%s(%s): %v", c.kind, c.key.Name, err)
+					continue
 				}
-				continue
+				if !registered {
+					if found && len(failedReg[root]) > 0 {
+						continue // a failed registration may have taken effect
+					}
+					if found {
+						violate(res, "model-mismatch", "model-mismatch:four-call:found-unregistered", 0, "%s(%s) succeeds although the requirements of %s were never requested", c.kind, c.key.Name, root)
+					}
+					continue
+				}
+				_, want := c18Expect(ref, c.kind, c.key)
+				if !found {
+					violate(res, "model-mismatch", "model-mismatch:four-call:missing:"+c.kind, 0, "%s(%s %s) not found although the requirements of %s were requested", c.kind, c.key.Name, c.key.Version, root)
+				} else if digest != want {
+					violate(res, "model-mismatch", "model-mismatch:four-call:"+c.kind, 0, "%s(%s %s) = %s\nthe documented mapping gives %s", c.kind, c.key.Name, c.key.Version, digest, want)
+				}
+				probe(res, "four_call_checks", 1)
 			}
-			_, want := c18Expect(ref, c.kind, c.key)
-			if !found {
-				violate(res, "model-mismatch", "model-mismatch:four-call:missing:"+c.kind, 0, "%s(%s %s) not found although the requirements of %s were requested", c.kind, c.key.Name, c.key.Version, root)
-			} else if digest != want {
-				violate(res, "model-mismatch", "model-mismatch:four-call:"+c.kind, 0, "%s(%s %s) = %s\nthe documented mapping gives %s", c.kind, c.key.Name, c.key.Version, digest, want)
-			}
-			probe(res, "four_call_checks", 1)
 		}
+	}
+	if !qs.Run([]func(*kernel.Task){fourCalls}) {
+		res.Status, res.Violations = "stalled", nil
+		return res
+	}
+	if qs.Aborted {
+		res.Status, res.Violations = "budget", nil
+		return res
 	}
 
 	overlap := false
